@@ -926,3 +926,80 @@ Proof.
 Qed.
 
 End Sim.
+
+(* ------------------------------------------------------------------ *)
+(* closed forms *)
+Section Closed.
+Context {Q : Type}.
+Variable O : ops Q.
+Variable stale : string -> nat -> bool.
+Variable C : @compiled Q.
+Variable W : @world Q.
+
+(* the machine is deterministic: more fuel never changes an Ok outcome, less fuel
+   gives Fuel — in particular never a panic *)
+Lemma run_from_more : forall m s r d, run_from O C m s = Ok r -> run_from O C (m + d) s = Ok r.
+Proof.
+  induction m; simpl; intros s r d H; [discriminate|].
+  destruct (Machine.step O C s); try discriminate; auto.
+Qed.
+
+Lemma run_from_any : forall m s r, run_from O C m s = Ok r ->
+  forall m', run_from O C m' s = Fuel \/ run_from O C m' s = Ok r.
+Proof.
+  induction m; simpl; intros s r H m'; [discriminate|].
+  destruct m'; simpl; [left; reflexivity|].
+  destruct (Machine.step O C s); try discriminate; auto.
+Qed.
+
+Lemma step_halt : forall fi ip fp frs stk last out res name code,
+  nth_error (p_chunks C) fi = Some (name, code) -> csize code <= ip ->
+  Machine.step O C {| m_frames := F fi ip fp :: frs; m_stack := stk; m_last := last; m_out := out; m_res := res |}
+  = SHalt.
+Proof.
+  intros. unfold Machine.step. cbn [m_frames fr_fn fr_ip F]. rewrite H.
+  apply Nat.leb_le in H0. rewrite H0. reflexivity.
+Qed.
+
+(* An expression statement at top level: the code of [e] followed by Return at the
+   end of <main>.  If the reference evaluation of [e] in world [W] yields [v], the
+   machine started at that code halts with value [v] (and the output so far). *)
+Theorem expr_statement_correct :
+  RelW O stale C W ->
+  forall n e v ce nk na pre out res,
+    eval O stale (false, false) n W (length (w_globals W)) (length (w_fns W)) (length (w_foreign W)) [] e = Ok v ->
+    cenv_rel O C W ce (length (w_globals W)) (length (w_fns W)) (length (w_foreign W)) ->
+    c_locals ce = None ->
+    nth_error (p_chunks C) 0 = Some ("<main>"%string, pre ++ f_code (cexpr ce e nk na) ++ [IReturn]) ->
+    consts_at C nk (f_consts (cexpr ce e nk na)) ->
+    nomark (f_code (cexpr ce e nk na)) ->
+    exists m,
+      run_from O C m {| m_frames := [F 0 (csize pre) 0]; m_stack := rev (map snd (w_globals W));
+                        m_last := w_last W; m_out := out; m_res := res |}
+      = Ok (out, Some v).
+Proof.
+  intros HW n e v ce nk na pre out res H Hrel Hloc Hmain Hk Hm.
+  set (s0 := {| m_frames := [F 0 (csize pre) 0]; m_stack := rev (map snd (w_globals W));
+                m_last := w_last W; m_out := out; m_res := res |}).
+  assert (Ha : at_code C 0 (csize pre) (f_code (cexpr ce e nk na) ++ [IReturn])).
+  { exists "<main>"%string, pre, []. rewrite app_nil_r. split; [exact Hmain | reflexivity]. }
+  apply at_code_app in Ha. destruct Ha as [Ha Har].
+  assert (Hs : stack_ok W ce [] 0 (rev (map snd (w_globals W)))).
+  { split; [exists []; reflexivity|]. rewrite Hloc. split; reflexivity. }
+  destruct (expr_correct O stale (false, false) C W eq_refl HW n _ _ _ _ _ _ H ce 0 0 [] Hrel
+              nk na (csize pre) _ s0 Hs eq_refl Ha Hk Hm) as [k1 S1].
+  assert (S2 : steps O C 1 (St 0 (csize pre + csize (f_code (cexpr ce e nk na))) 0 []
+                               ([v] ++ rev (map snd (w_globals W))) s0)
+               = Some {| m_frames := [F 0 (csize pre + csize (f_code (cexpr ce e nk na)) + 1) 0];
+                         m_stack := rev (map snd (w_globals W));
+                         m_last := Some v; m_out := out; m_res := Some v |}).
+  { eapply run_one; [exact Har|]. reflexivity. }
+  pose proof (steps_trans O C _ _ _ _ _ S1 S2) as S3.
+  exists (k1 + 1 + 1).
+  change (run_from O C (k1 + 1 + 1) (St 0 (csize pre) 0 [] (rev (map snd (w_globals W))) s0) = Ok (out, Some v)).
+  rewrite (steps_run O C _ 1 _ _ S3).
+  cbn [run_from]. rewrite (step_halt _ _ _ _ _ _ _ _ _ _ Hmain); [reflexivity|].
+  rewrite !csize_app. simpl. lia.
+Qed.
+
+End Closed.
